@@ -328,7 +328,7 @@ void c12(const Trace& t, const Analysis& A, Verdict& V) {
 	std::map<uint16_t, uint8_t> serToAct; std::map<uint8_t, uint16_t> actToSer;
 	for (uint32_t i = 0; i < t.n; ++i) {
 		const Ev& e = t.ev[i];
-		if ((e.kind != EV_BEGIN && e.kind != EV_END) || !e.hasSerial || A.ann[i].dead) continue;
+		if ((e.kind != EV_BEGIN && e.kind != EV_END && e.kind != EV_CB) || !e.hasSerial || A.ann[i].dead) continue;
 		if (e.hasSerial == 3) { V.add(12, i, "save() wrote outside the buffer's declared bit capacity"); continue; }
 		auto a = serToAct.find(e.serial);
 		if (a != serToAct.end() && a->second != e.mAct) V.add(12, i, F("activities %d and %d serialize to the same bytes %04x", sidOf(a->second), sidOf(e.mAct), e.serial));
